@@ -68,10 +68,63 @@ def star_matrix(tier):
     return db, progs
 
 
+def repeat_matrix(tier):
+    """Enumerated: the same SOURCE column more than once in the final frame of a SELECT over one, two (join,
+    self join) or three relations - plain twice, with another column in between, once plain and once under a new
+    name, through a later derive - x inner / left x what precedes the projection (nothing, filter, sort | take)."""
+    col = lambda n, q=None: ["col", q, n]
+    progs = []
+    pats = {
+        "x_z_x": lambda a, b: {"t": "select", "items": [[None, col("a", a)], [None, col("c", b)], [None, col("a", a)]]},
+        "x_x": lambda a, b: {"t": "select", "items": [[None, col("a", a)], [None, col("a", a)]]},
+        "x_z_n=x": lambda a, b: {"t": "select", "items": [[None, col("a", a)], [None, col("c", b)], ["n", col("a", a)]]},
+        "n=x_z_x": lambda a, b: {"t": "select", "items": [["n", col("a", a)], [None, col("c", b)], [None, col("a", a)]]},
+        "id_id_id=": lambda a, b: {"t": "select", "items": [[None, col("id", a)], [None, col("id", b)], ["id", col("id", a)]]},
+        "n=x_m=x": lambda a, b: {"t": "select", "items": [["n", col("a", a)], ["m", col("a", a)], [None, col("c", b)]]},
+        "bx_ax_bx": lambda a, b: {"t": "select", "items": [[None, col("k", b)], [None, col("k", a)], [None, col("k", b)]]},
+    }
+    pres = {"none": [], "filter": [{"t": "filter", "cond": ["bin", ">", col("id", "a"), ["lit", 0]]}],
+            "sort_take": [{"t": "sort", "keys": [[False, col("id", "a")]]}, {"t": "take", "lo": None, "hi": 5, "plain": True}]}
+    for side in ("inner", "left"):
+        for second in ("t2", "t1"):
+            for three in (False, True):
+                for pn, pre in pres.items():
+                    for name, pat in pats.items():
+                        main = [{"t": "from", "src": {"k": "table", "name": "t1"}, "alias": "a"},
+                                {"t": "join", "src": {"k": "table", "name": second}, "alias": "b", "side": side, "explicit_side": side != "inner",
+                                 "cond": ["bin", "==", col("id", "a"), col("id", "b")]}]
+                        if three:
+                            main.append({"t": "join", "src": {"k": "table", "name": "t3"}, "alias": "d", "side": "inner", "cond": ["bin", "==", col("k", "a"), col("k", "d")]})
+                        main += pre
+                        bcol = "c" if second == "t2" else "b"
+                        t = pat("a", "b")
+                        # the second relation's own column (c of t2 / b of t1)
+                        t = {"t": "select", "items": [[n, (["col", "b", bcol] if e == ["col", "b", "c"] else e)] for n, e in t["items"]]}
+                        progs.append({"lets": [], "main": main + [t], "cuts": []})
+                    # through a later derive: select {a.x, b.z} | derive {a = a.x}
+                    progs.append({"lets": [], "main": main[:len(main)] + [{"t": "select", "items": [[None, col("a", "a")], [None, col(bcol, "b")]]},
+                                                                         {"t": "derive", "items": [["a", col("a", "a")]]}], "cuts": []})
+    db = {"t1": {"cols": ["id", "k", "a", "b", "s"], "types": ["int", "int", "int", "float", "text"], "rows": [[1, 1, 4, 0.5, "x"], [2, 1, None, 1.5, "y"], [3, 2, 2, None, "x"]]},
+          "t2": {"cols": ["id", "k", "a", "c", "s"], "types": ["int", "int", "int", "int", "text"], "rows": [[1, 1, 4, 10, "x"], [2, 1, 1, None, "y"], [4, 2, 2, 5, "z"]]},
+          "t3": {"cols": ["k", "d", "e"], "types": ["int", "int", "text"], "rows": [[1, 2, "p"], [2, 5, "q"], [2, 6, "r"]]}}
+    return db, progs
+
+
 def matrix_phase(run, tier, seed):
     from .. import core
-    db, progs = star_matrix(tier)
+    db2, progs2 = repeat_matrix(tier)
     N = core.NCPU
+    kws = [dict(prop="C05", seed=seed, shard=i, n_cases=0, profile="project", props=PROPS, fixed=[(db2, progs2[i::N])], reduce_budget=6,
+                rotate=relcheck.STATIC_DIALECTS) for i in range(N)]
+    res = core.run_shards(relcheck.explore_shard, kws)
+    obs2 = relcheck.merge_obs([o for _, o in res])
+    for v, _ in res:
+        run.extend(v)
+    run.coverage["repeat_matrix"] = {"programs": len(progs2), "executions": obs2.get("cases", 0), "judged": obs2.get("judged", 0), "rejected": obs2.get("rejected", 0),
+                                     "model_error": obs2.get("model_error", 0), "unspecified": obs2.get("unspecified", 0),
+                                     "cells": "8 ways of having one source column twice in the final frame x {join, self join} x {2, 3 relations} x inner/left x {nothing, filter, sort | take} before the projection"}
+    run.coverage["evaluations"] = run.coverage.get("evaluations", 0) + obs2.get("cases", 0)
+    db, progs = star_matrix(tier)
     kws = [dict(prop="C05", seed=seed, shard=i, n_cases=0, profile="project", props=PROPS, fixed=[(db, progs[i::N])], reduce_budget=6,
                 dialects=relcheck.STATIC_DIALECTS) for i in range(N)]
     res = core.run_shards(relcheck.explore_shard, kws)
